@@ -35,10 +35,10 @@ TECHNIQUE = "runtime monitoring: round-trip differential check at the serialisat
 ASSUMPTIONS = ["json.dumps/json.loads are faithful for the produced dictionaries"]
 N = {"quick": 6, "thorough": 8}
 FLOORS = {
-    "quick": {"nontrivial": 250, "counters": {"json.specs_round_tripped": 400, "json.rules_round_tripped": 4000,
+    "quick": {"nontrivial": 250, "counters": {"json.specs_round_tripped": 350, "json.rules_round_tripped": 4000,
                                                "json.strategies_round_tripped": 2500,
                                                "json.bijections_round_tripped": 150,
-                                               "json.instantiation_pairs_compared": 400,
+                                               "json.instantiation_pairs_compared": 300,
                                                "json.specs_with_empty_rule": 100},
               "seen": {"json.rule_form": 5}},
     "thorough": {"nontrivial": 5000, "counters": {"json.specs_round_tripped": 8000, "json.rules_round_tripped": 80000,
